@@ -150,7 +150,59 @@ class ChanScn:
         return None, 0
 
 
-SCENARIOS = {"chan": ChanScn}
+class ConcSendScn:
+    """two threads serialising / sending different values at the same time (two channels of one
+    gateway, or two gateways of one process): each echo must return its own value"""
+
+    @staticmethod
+    def scenario(w, P):
+        S = Session(w, "popen", "thread")
+
+        def main():
+            from execnet.multi import Group
+
+            S.group = g = Group(execmodel=S.proc.execmodel)
+            gws = [g.makegateway("popen//id=a")]
+            if P["gateways"] == 2:
+                gws.append(g.makegateway("popen//id=b"))
+            chans = [gws[i % len(gws)].remote_exec("for x in channel:\n    channel.send(x)") for i in range(2)]
+            vals = [[1, "a" * 3, (2.5, None)], {"k": [b"zz", True], "j": -7}]
+            w.exploring = True
+
+            def user(i):
+                try:
+                    for rnd in range(P["rounds"]):
+                        chans[i].send(vals[i])
+                        r = chans[i].receive(timeout=30)
+                        if not E.same(r, vals[i]):
+                            w.observe("mismatch", i, repr(r)[:120])
+                except BaseException as e:  # noqa: BLE001
+                    w.observe("exc", i, type(e).__name__, str(e)[:100])
+
+            for i in range(2):
+                S.user(user, f"sender{i}", (i,))
+            S.join_users()
+            w.exploring = False
+            w.observe("joined")
+            g.terminate(timeout=2.0)
+
+        S.main(main)
+        return S
+
+    @staticmethod
+    def oracle(w, S, P):
+        obs = w.obs
+        if ("joined",) not in obs:
+            return ("c01:concurrent-send-hang", f"obs={obs} blocked={w.blocked_at_end} stderr={w.stderr.getvalue()[-400:]}"), 0
+        for e in obs:
+            if e[0] == "mismatch":
+                return ("c01:concurrent-send-mismatch", f"a value sent while another thread was serialising came back as {e[2]} (sender {e[1]})"), 0
+            if e[0] == "exc":
+                return ("c01:concurrent-send-exception", f"{e} stderr={w.stderr.getvalue()[-400:]}"), 0
+        return None, 1
+
+
+SCENARIOS = {"chan": ChanScn, "conc": ConcSendScn}
 
 
 def run(tier: str, only=None) -> int:
@@ -215,6 +267,11 @@ def run(tier: str, only=None) -> int:
         rep.add_enumeration(f"channel-{tr}", len(chvals) + len(ChanScn.INVALID), len(ChanScn.INVALID))
         if res.violation is not None:
             rep.violation(res.violation[0], f"[channel path over virtual {tr}] {res.violation[1]}", {"check": PID, "sub": "chan", "transport": tr})
+    # concurrent serialisation: statement-level preemption INSIDE the (un)serializer and dumps/loads helpers
+    ser = harness.stmt_mask(lambda m, q, l: m == "gateway_base" and (q.startswith("_Serializer.") or q.startswith("Unserializer.") or q in ("dumps_internal", "loads_internal", "Channel.send", "Message.to_io", "Message.from_io", "Message.__init__")))
+    for gwn in (1, 2):
+        P = {"gateways": gwn, "rounds": 1}
+        harness.run_exploration(rep, PID, f"conc/{gwn}gw/stmt", ConcSendScn, P, {"ps": 0, "pl": 1, "free": 0} if tier == "quick" else {"ps": 0, "pl": 2, "free": 1}, stmt=ser, max_execs=2000000)
     rep.assumptions += ["the channel clause is sequential: checked on the default schedule of the virtual gateway", "sets are compared as unordered collections, dicts in insertion order, floats by bit pattern"]
     return rep.finish()
 
